@@ -895,12 +895,13 @@ class Interp:
             self.oblige(st, "split", "split_at(%s) of a slice of length %s" % (k, L0), ctx.ge0(k) and ctx.le(k, L0), t.get("sp"))
             self.store(st, t["dest"], ('tuple', [('slice', k), ('slice', L0 - k)]))
             return None
-        if name in self.inline and args and args[0] == ('self',):
+        if (name in self.inline and args and args[0] == ('self',)) or (name and self.facts.is_new_helper(name)):
+            # a callee the rule asked to look into, or a helper introduced by a later edit (not on the pinned tree)
             cb = self.facts.body(name, required=False)
-            if cb is not None:
-                env = {1: ('self',)}
-                for i in range(2, cb.argc + 1):
-                    env[i] = args[i - 1] if i - 1 < len(args) else self.opaque()
+            if cb is not None and cb.argc == len(args):
+                env = {}
+                for i in range(1, cb.argc + 1):
+                    env[i] = args[i - 1]
                 st["stack"].append({"body": st["body"], "env": st["env"], "dest": t["dest"], "target": t["target"], "visits": visits})
                 st["body"], st["env"] = cb, env
                 self.stats["inlined"] += 1
